@@ -167,10 +167,9 @@ func (r *FetchRequest) decode(pd packetDecoder, version int16) (err error) {
 	if err != nil {
 		return err
 	}
-	if topicCount == 0 {
-		return nil
+	if topicCount > 0 {
+		r.blocks = make(map[string]map[int32]*fetchRequestBlock)
 	}
-	r.blocks = make(map[string]map[int32]*fetchRequestBlock)
 	for i := 0; i < topicCount; i++ {
 		topic, err := pd.getString()
 		if err != nil {
